@@ -584,11 +584,14 @@ SPEC["C19"] = {
          good filters saved by FiltersSet.tosieve the parsed script's filters -- out of their `if false` wrapper
          when disabled -- are read back as they were defined (C19_reloaded_read_back; uses that the tree of a
          script of the grammar is determined by the script, sieve/WfFun.v).
-   Not proved: get_filter_actions on reloaded sets; address conditions, notsize, values with commas (known
-   findings).  These are evaluated on the implementation and, for the model, by the differential runs.""",
+         The same for get_filter_actions on parser trees and on reloaded sets (C19_parsed_tree_actions,
+         C19_reloaded_read_back_full): actions with positional strings and value-less tags.
+   Not proved: address conditions, notsize, values with commas (known findings).  These are evaluated on the implementation and, for the model, by the differential runs.""",
     "imports": TEXT_IMPORTS + "From SV Require Import Tables ArgCheck ArgSpec Machine Printer GenTables Ops Build BuildFacts BuildSet Read ReadFacts ReadReload FactoryConsts ConstFacts.\n",
     "theorems": [
         ("C19_reloaded_read_back", "ReadReload.reload_read_back", "on a set reloaded from its rendered script: the parser accepts the text and every filter of the parsed script (taken out of its `if false` wrapper when disabled, as getfilter does) is read back as it was defined"),
+        ("C19_reloaded_read_back_full", "ReadReload.reload_read_back_full", "the same with get_filter_actions: conditions, match type and actions of every filter of the reloaded set are read back as they were defined"),
+        ("C19_parsed_tree_actions", "ReadReload.factory_parsed_actions", "get_filter_actions on the tree the parser builds for the script of a documented filter"),
         ("C19_parsed_tree_read_back", "ReadReload.factory_parsed_filter", "the tree the PARSER builds for the script of a documented filter (string lists stored as lists: the list branch of args_as_tuple) is read back exactly as supplied"),
         ("C19_readable_classes", "ConstFacts.readable_is_the_tuple", "get_filter_conditions reads exactly the command classes listed in the source on this run"),
         ("C19_negation_folding_classes", "ConstFacts.fold_not_only_there", "the negation is folded only for the names the source lists"),
